@@ -94,7 +94,10 @@ def run(ctx):
     for name, f in sorted(F.fns.items()):
         if f.mod.startswith("radix_transactions::model") and re.search(r"::prepare(_from_value(_body)?|_from_transaction_enum|_partial)?$", f.root):
             for bb, t in ctx.body(name).calls(r"::collect$|::from_iter$|::extend$"):
-                if re.search(SETS, t.get("ga") or ""):
+                bx = ctx.body(name)
+                dst = t.get("d")
+                dst_ty = bx.locals[dst[0]][0] if dst and isinstance(dst[0], int) and dst[0] < len(bx.locals) else ""
+                if re.search(SETS, (t.get("ga") or "") + " " + str(dst_ty)):
                     offenders.append((name, t["f"].rsplit("::", 1)[1], f.loc()))
     ctx.floor("canonical-collections|detector-alive (set/map collects anywhere in the fact db)", alive, 20)
     ctx.ob("canonical-collections|no-dedup-collect-in-prepare", not offenders,
